@@ -19,6 +19,17 @@ impl<'a> Index<'a> {
     /// The caller must specify whether the data comes from a `CFF2` table.
     pub fn new(data: &'a [u8], is_cff2: bool) -> Result<Self, Error> {
         let data = FontData::new(data);
+        // An empty INDEX is the count field only (2 bytes CFF, 4 bytes CFF2): no off_size follows and
+        // it may be the last object of the table (FreeType's cff_index_init reads off_size only if
+        // count > 0).
+        let count = if is_cff2 {
+            data.read_at::<u32>(0)?
+        } else {
+            data.read_at::<u16>(0)? as u32
+        };
+        if count == 0 {
+            return Ok(Self::Empty);
+        }
         Ok(if is_cff2 {
             Index2::read(data).map(|ix| ix.into())?
         } else {
